@@ -132,6 +132,9 @@ def validate_literal_eval():
     try:
       if ast.literal_eval("'" + body + "'") != body:
         bad.append(cp)
+      # the four escapes of the escape kernels next to this code point
+      if ast.literal_eval("'" + chr(cp) + "\\'\\\\\\n\\t" + chr(cp) + "'") != chr(cp) + "'\\\n\t" + chr(cp):
+        bad.append(cp)
     except Exception:  # noqa: BLE001
       bad.append(cp)
   return bad, n
@@ -174,7 +177,7 @@ def run():
       'alphabet: tab, newline and every code point >= 0x20; other control characters (whose escapes differ between engines) are outside the claim; json.dumps is assumed to be the identity outside the tabulated specials (checked on 2000+ code points per run)',
       'flags: values of length <=3, one user flag f and one other flag g; a value spelling ${f} or ${g} is excluded (flags may refer to flags by design)',
       'k_flag_value_is_data and k_function_args_verbatim are bug-hunting only: CrossHair does not reach "Confirmed" on str.replace / % formatting of symbolic strings within 60 s; nothing is claimed from them',
-      'single-quoted Logica literals: bodies of <=3 (ASCII) / <=2 (Latin-1, BMP) / 1 (astral) code points without backslash, quote or line break, with ast.literal_eval replaced by its contract on that sub-domain (identity; validated against the interpreter on ~1500 code points per run); backslash escapes inside single-quoted literals are outside the claim',
+      'single-quoted Logica literals: bodies of <=3 (ASCII) / <=2 (Latin-1, BMP) / 1 (astral) code points without backslash, quote or line break, with ast.literal_eval replaced by its contract on that sub-domain (identity; validated against the interpreter on ~1500 code points per run); and with one of the four escapes (backslash followed by quote, backslash, n or t) at any position of a body of <=2 characters (ASCII / code points 0x80-0x2ff), with ast.literal_eval replaced by a pure-Python decoder of exactly these escapes; other escapes are outside the claim',
       'outside: literals longer than N',
   ]
   return out.finish()
